@@ -298,6 +298,19 @@ func (p *Prog) findFunc(fc *FuncContract) *ssa.Function {
 		}
 		return nil
 	}
+	// a function literal: parent$N (go/ssa's name for the N-th literal inside parent)
+	if k := strings.Index(fc.Key, "$"); k > 0 {
+		parent, _ := sp.Members[fc.Key[:k]].(*ssa.Function)
+		if parent == nil {
+			return nil
+		}
+		for _, af := range parent.AnonFuncs {
+			if af.Name() == fc.Key {
+				return af
+			}
+		}
+		return nil
+	}
 	f, _ := sp.Members[fc.Key].(*ssa.Function)
 	return f
 }
